@@ -73,3 +73,22 @@ Proof.
   intros H. cbn [idle_fire]. destruct (N.leb_spec idle tsi); [|lia].
   destruct (fakekey_action cfg l op (x, y)); reflexivity.
 Qed.
+
+(* ---- the idle time that on-idle entries wait for: can_block_update_idle_waiting(ms) of every loop iteration ---- *)
+Definition counting (k : kstate) : bool :=
+  negb (match k_waiting_for_idle k with [] => true | _ => false end) || k_live_reload_requested k.
+
+(* an iteration in which kanata is not idle restarts the idle time *)
+Lemma idle_time_restarts cfg k ms :
+  k_is_idle_cfg cfg k = false -> fst (k_can_block cfg k ms) = set_k_ticks_since_idle 0 k.
+Proof. intros H. unfold k_can_block. rewrite H. reflexivity. Qed.
+
+(* an idle iteration of ms milliseconds, with an entry waiting, adds ms (saturating): whatever the length of the iteration *)
+Lemma idle_time_accumulates cfg k ms :
+  k_is_idle_cfg cfg k = true -> counting k = true ->
+  fst (k_can_block cfg k ms) = set_k_ticks_since_idle (sat_add16 (k_ticks_since_idle k) ms) k /\
+  snd (k_can_block cfg k ms) = false.
+Proof.
+  intros H Hc. unfold k_can_block. rewrite H. unfold counting in Hc. cbn [negb]. rewrite Hc. cbn [fst snd negb andb].
+  split; reflexivity.
+Qed.
